@@ -89,26 +89,7 @@ def run(model, rep):
                     rep.check(not problems, 'C10.FLOW', mi.loc(), label, 'the three consumers receive the caller\'s names plus the names the binder recorded',
                               '; '.join(problems[:3]), key=key)
 
-    # find__all__ feeds the global set inside allow_rename_globals
-    ag = model.func(UTIL + '.allow_rename_globals')
-    AF = Facts(ag.node)
-    adefs = local_defs(ag.node)
-    pg = ag.positional[2] if len(ag.positional) > 2 else 'preserve_globals'
-    feeds = False
-    for c in calls(ag.node):
-        if isinstance(c.func, ast.Attribute) and c.func.attr in ('extend', '__iadd__') and src(c.func.value) == pg and any('find__all__' in src(a) for a in c.args):
-            # must dominate the pinning loop
-            feeds = True
-    for n in walk_own(ag.node):
-        if isinstance(n, (ast.Assign, ast.AugAssign)) and 'find__all__' in src(n.value) and pg in src(n):
-            feeds = True
-    loop_after = False
-    for n in walk_own(ag.node):
-        if isinstance(n, ast.For) and 'bindings' in src(n.iter):
-            f = AF.facts_at(n)
-            loop_after = f is not None and (any(k.startswith('<did:') and 'extend' in k for (k, p) in f) or ('<assigned:%s>' % pg, True) in f)
-    rep.check(feeds and loop_after, 'C10.FLOW', ag.loc(), '__all__ entries join the preserved globals before bindings are pinned', 'find__all__(module) feeds ' + pg,
-              'names listed in a literal __all__ are no longer added to the preserved globals (or only after the pinning loop)', key='C10.FLOW|__all__')
+    # (that the names of a literal __all__ are pinned is decided on a real tree by gate_tree, under C10.GUARD)
     # find__all__ itself: abstract evaluation on three module shapes
     fa = model.func(UTIL + '.find__all__')
     shapes = {
@@ -158,7 +139,18 @@ def run(model, rep):
             ok = rg is True and isinstance(pgs, list) and ep in pgs
             why = 'entrypoint must be preserved: rename_globals=%r preserve_globals=%r' % (rg, pgs)
         rep.check(ok, 'C10.FLOW', aw.loc(), 'awslambda(entrypoint=%r) -> minify(rename_globals=%r, preserve_globals=%r)' % (ep, rg, pgs), 'as documented', why, key='C10.FLOW|awslambda|%r' % ep)
-    rep.floor('C10.FLOW', 30)
+    # the command line route: --preserve-globals / --preserve-locals reach minify() for every file of a run (pmstatic.clirun, shared with C13)
+    from . import cli_e2e
+    flags, _b, _l = cli_e2e.run_flags(model, rep.tier)
+    main = model.func('python_minifier.__main__.main')
+    n_cli = 0
+    for (label, argv, probs) in flags:
+        if not any('preserve' in a for a in argv):
+            continue
+        n_cli += 1
+        mine = [p for p in probs if 'preserve_' in p.text]
+        rep.check(not mine, 'C10.FLOW', main.loc(), 'command line: %s' % label, 'minify() receives the listed names for every file', '; '.join(p.text for p in mine[:2]), key='C10.FLOW|cli|' + label)
+    rep.floor('C10.FLOW', 40)
 
     # ---------------- GUARD: gates pin exactly the preserved names (abstract evaluation)
     for fname, make in (('allow_rename_locals', 'FunctionDef'), ('allow_rename_globals', 'Module')):
@@ -178,36 +170,18 @@ def run(model, rep):
         names = sorted(x.attrs.get('name') for x in pinned)
         rep.check(names == ['keep'], 'C10.GUARD', fi.loc(), '%s(rename on, preserve=[keep]) pins %s' % (fname, names), 'exactly the preserved name',
                   'with renaming on and preserve=[\'keep\'] the gate pins %s' % names, key='C10.GUARD|enum|' + fname)
-    # nested scopes: allow_rename_locals recurses into every child with the same list
-    al = model.func(UTIL + '.allow_rename_locals')
-    rec = [c for c in calls(al.node) if isinstance(c.func, ast.Name) and c.func.id == al.name]
-    ok = False
-    for c in rec:
-        par = model.parent(model.parent(c))
-        a2 = c.args[2] if len(c.args) > 2 else kwarg(c, al.positional[2])
-        a1 = c.args[1] if len(c.args) > 1 else kwarg(c, al.positional[1])
-        if isinstance(par, ast.For) and 'iter_child_nodes' in src(par.iter) and src(a2) == al.positional[2] and src(a1) == al.positional[1]:
-            f = Facts(al.node).facts_at(c)
-            ok = f is not None and not [k for (k, p) in f if not k.startswith('<')]
-    rep.check(ok, 'C10.GUARD', al.loc(), 'recursion over every child node with the same switch and list', 'unconditional recursion', 'nested scopes are not visited with the preserve list', key='C10.GUARD|recursion')
+    # (that nested scopes are reached with the same switch and list is decided on a real tree by gate_tree below)
     # reserved globals are added to module.assigned_names before the assignment loop, and rename() forwards them
+    # preserved globals are never handed out as new names: rename() evaluated with the repository's reservation code on a small world whose
+    # candidate stream starts with the preserved name (assign_enum.reservation_world)
+    from . import assign_enum
+    problems, final = assign_enum.reservation_world(model, preserved_globals=('PRESERVED', 'other_kept'))
+    mine = [p_ for p_ in problems if 'preserved global' in p_]
     na = model.func('python_minifier.rename.renamer.NameAssigner.__call__')
-    rparam = na.positional[2] if len(na.positional) > 2 else None
-    top = na.node.body
-    idx_res = idx_loop = None
-    for i, s in enumerate(top):
-        t = src(s)
-        if rparam and 'assigned_names.add' in t and rparam in t and idx_res is None:
-            idx_res = i
-        if 'sorted_bindings' in t and isinstance(s, ast.For) and idx_loop is None:
-            idx_loop = i
-    rep.check(idx_res is not None and idx_loop is not None and idx_res < idx_loop, 'C10.GUARD', na.loc(), 'preserved globals reserved in the module namespace before names are assigned',
-              'reservation precedes the assignment loop', 'preserved global names are not reserved before other bindings pick new names: another binding can take a preserved name', key='C10.GUARD|reserve')
-    rn = model.func('python_minifier.rename.renamer.rename')
-    fwd = False
-    for c in calls(rn.node):
-        if isinstance(c.func, ast.Call) and src(c.func.func) == 'NameAssigner':
-            a = c.args[2] if len(c.args) > 2 else kwarg(c, rparam)
-            fwd = a is not None and src(a) == 'preserved_globals'
-    rep.check(fwd, 'C10.GUARD', rn.loc(), 'rename() forwards preserved_globals to the assigner', 'forwarded', 'rename() drops preserved_globals', key='C10.GUARD|forward')
-    rep.floor('C10.GUARD', 5)
+    rep.check(not mine, 'C10.GUARD', na.loc(), 'preserved globals offered first by the candidate stream -> final names %s' % final, 'no binding visible at module level receives a preserved name',
+              '; '.join(mine[:2]), key='C10.GUARD|reserve')
+    from .c09 import gate_tree
+    keep = ['e', 'total', 'K', 'top', 'w', 'line', 'v', 'err', 'c2', 'yy', 'inner']
+    gate_tree(model, rep, 'C10.GUARD', True, True, keep, lambda kind, name: True if (name in keep or (kind == 'Module' and name == 'f')) else None,
+              'permission gates with renaming on, preserve=%s and __all__ = [\'f\', ...]' % keep, 'C10.GUARD|tree')
+    rep.floor('C10.GUARD', 4)
